@@ -100,6 +100,19 @@ let handle (line : string) : string =
                 | None -> { s_words = [!bos_id]; s_bo = [(Z0, false)] }) in
            let (c, p) = eval_tree n tl (kd = "R") bos_st tree in
            Printf.sprintf "%s %d %d %s" (hex_of_z p) (List.length c.c_left.l_ptrs) (if c.c_left.l_full then 1 else 0) (fmt_state c.c_right))
+  | "K" :: rest ->
+      (* State comparison: K w.. ; w..   -> eq sign(compare) lt *)
+      let rec split acc = function ";" :: r -> (List.rev acc, r) | x :: r -> split (x :: acc) r | [] -> (List.rev acc, []) in
+      let (a, b) = split [] rest in
+      let mk l = { c_len = nat_of_int (List.length l); c_words = List.map z_of_hex l } in
+      let sa = mk a and sb = mk b in
+      let sign z = match z with Z0 -> "0" | Zpos _ -> "+" | Zneg _ -> "-" in
+      Printf.sprintf "%d %s %d" (if st_eq sa sb then 1 else 0) (sign (st_compare sa sb)) (if st_lt sa sb then 1 else 0)
+  | "L" :: l1 :: p1 :: f1 :: l2 :: p2 :: f2 :: [] ->
+      let mk l p f = { l_len = nat_of_int (int_of_string l); l_last = z_of_hex p; l_full0 = (f = "1") } in
+      let a = mk l1 p1 f1 and b = mk l2 p2 f2 in
+      let sign z = match z with Z0 -> "0" | Zpos _ -> "+" | Zneg _ -> "-" in
+      Printf.sprintf "%d %s %d" (if left_eq a b then 1 else 0) (sign (left_compare a b)) (if left_lt a b then 1 else 0)
   | "SPEC" :: bos :: ws ->
       let n = nat_of_int !order in
       let hist0 = if bos = "1" then [!bos_id] else [] in
